@@ -32,6 +32,10 @@ def run(ctx):
         for i, a in enumerate(r.get("value", [])):
             jobs.append(Job("c06.py", "h_consume_order", {"which": "consume", "lang": lang, "automaton": i}, T, 60, tag=f"transition order {lang} pair{a['pair']}.{a['part']}", meta={"twin": lang == "JavaScript" and a["part"] == "header" and a["pair"] == 1, "sigtag": f"order:{lang}"}))
     jobs.append(Job("c06.py", "h_add_order", {"which": "add"}, T, 30, tag="insertion order, 3 files"))
+    # the order in which exclusion entries reach the matcher must be the order they were written in (a set in between would make it depend on the hash seed; the run uses PYTHONHASHSEED=0)
+    jobs.append(Job("c11.py", "h_cli_sources", {}, T, 60, tag="exclusion entries keep their written order (negation entries)", meta={"sigtag": "exclusion-order", "twin": False}))
+    # a file's analysis is reused only if its content is unchanged: the checksum covers all of its bytes
+    jobs.append(Job("c09.py", "h_checksum", {"pool": ["a.py"], "ncont": 2}, T, 60, tag="checksum covers the whole file", meta={"sigtag": "checksum", "twin": False}))
     # the same code tokens analysed twice in one process in different layouts (baseline scan, then re-laid-out scan with a marker comment): C17's harness, run here for its isolation aspect
     for lang in ("JavaScript", "TypeScript", "Python", "C", "Java"):
         for label in ("two", "three-global"):
